@@ -361,6 +361,71 @@ def _url_work(chunk):
     return res
 
 
+
+class WriteFault(Conduct):
+    """One write of the client fails (connection reset) in the middle of a flush: what is on the wire is a prefix of
+    what the application sent - nothing is transmitted after the frame that failed - and the connection ends with
+    exactly one 'transport error' disconnect, leaving the client clean.
+
+    The server first stops reading, so that the application's sends pile up behind a blocked write and go out as one
+    batch when it resumes; the write with index `fault` counted from the blocked one fails once."""
+    def build(self):
+        Conduct.build(self)
+        p = self.params
+
+        def live(s):
+            return [x for x in s.world.server.wss if x.accepted and not x.closed_by_client]
+
+        def arm(s):
+            ws = live(s)[-1]
+            ws.fail_send_at = ws.nwrite + p['fault']
+            s.armed_at = len(ws.sent)
+        rel = self.scripts[3]
+        # arm once every send has been issued and the first write is blocked; then the server reads again
+        rel.insert(0, core.Action('WS<-arm-fault', arm, lambda s: bool(live(s)) and live(s)[-1].stalled > 0 and
+                                  len(s.send_calls) == p['nsend']))
+
+    def finish(self):
+        w = self.world
+        p = self.params
+        trig = 'write_fault'
+        if not self.conn.done or self.conn.exc:
+            self.flag('connect_failed', 'connect(): done=%s exc=%r' % (self.conn.done, self.conn.exc), trigger=trig)
+            return
+        w.run_until(w.now + 9.0)
+        out = self.client_output()
+        wire = [d for ch, t, d, k in out if t == 4]
+        want = [bytes(x) if isinstance(x, (bytes, bytearray)) else x for x in SENDS[:p['nsend']]]
+        norm = [bytes(x) if isinstance(x, (bytes, bytearray)) else x for x in wire]
+        self._obs = {'wire': [repr(x)[:12] for x in norm]}
+        if p['judge'] == 'c09':
+            if norm != want[:len(norm)]:
+                self.flag('wire_not_prefix', 'write #%d of the flush failed; the server received messages %r, the application sent %r: '
+                          'not a prefix (something went out after the frame that failed)' % (p['fault'], norm, want), trigger=trig)
+        else:
+            disc = [e for e in w.events if e[0] == 'disconnect']
+            self._obs['disc'] = [e[1] for e in disc]
+            if len(disc) != 1 or disc[0][1] != 'transport error':
+                self.flag('disconnect_count', 'a write of the client failed in the middle of a flush: disconnect events %r (want exactly one '
+                          'transport error), state %r' % ([e[1] for e in disc], w.client.state), trigger=trig,
+                          reasons='+'.join(str(e[1]) for e in disc))
+            if w.client.state != 'disconnected' or w.client.sid is not None:
+                self.flag('state_not_clean', 'state %r sid %r after the failed write' % (w.client.state, w.client.sid), trigger=trig)
+            alive = w.tasks_alive()
+            if alive:
+                self.flag('tasks_alive', 'background tasks still running: %r' % alive, trigger=trig)
+            errs = [e for e in w.loop_errors() if 'HandlerError' not in e.get('exception', '')]
+            if errs:
+                self.flag('background_exception', 'exception left a background task: %r' % errs[:2], trigger=trig)
+
+    def observation(self):
+        return dict(getattr(self, '_obs', {}), scenario=report.dumps(self.params, sort_keys=True))
+
+
+def write_fault_params(judge):
+    return [{'impl': impl, 'mode': mode, 'pushes': [], 'nsend': ns, 'stall': True, 'fault': f, 'judge': judge}
+            for impl in ('sync', 'async') for mode in ('websocket', 'upgrade_ok') for ns in (3, 4) for f in range(0, ns)]
+
 def param_list(ctx):
     ps = []
     names = list(PUSHES)
@@ -416,6 +481,11 @@ def run(ctx):
         st2, viols2, samples2, gate2 = core.run_search(Conduct, two, 2, ctx.workers, ctx.seed)
     st.merge(st2)
     viols += viols2
+    st3, viols3, _, _ = core.run_search(WriteFault, write_fault_params('c09'), 0, ctx.workers, ctx.seed)
+    st.merge(st3)
+    for v in viols3:
+        v['params'] = dict(v['params'], _write_fault=True)
+    viols += viols3
     for v in viols:
         pr = v['params']
         rep.add(report.Violation(
@@ -438,7 +508,7 @@ def run(ctx):
         'evaluations': st.executions + nurl, 'distinct_nontrivial': len(st.outcomes) + nurl,
         'rule': 'server push sequences over %r (length <= %d) x application sends (text, bytes, JSON; 0..4) x mode {polling, websocket, '
                 'upgrade with probe answered correctly / wrongly / not at all / socket refused} x {Client, AsyncClient}; pushes and sends '
-                'are parallel scripts: all interleavings and <= %d deviation(s); every execution ends in server silence; WebSocket scenarios in which the server stops reading, so that a send of the client blocks inside the socket while frames keep arriving, and later resumes. Plus the '
+                'are parallel scripts: all interleavings and <= %d deviation(s); every execution ends in server silence; WebSocket scenarios in which the server stops reading, so that a send of the client blocks inside the socket while frames keep arriving, and later resumes; write-fault scenarios (sends piled up behind a blocked write go out as one batch and the k-th write of that flush fails once: the wire must be a prefix of what was sent). Plus the '
                 'product of 4 schemes x 3 hosts x 3 paths x 3 queries x 3 endpoint settings x 2 transports (%d URLs per client).'
                 % (list(PUSHES), 2 if ctx.quick else 3, bound, len(cases)),
         'exhaustive': True, 'bound_completed': bound, 'caps_hit': st.caps, 'scenarios': len(params),
@@ -460,7 +530,8 @@ def replay(ctx, payload):
         for o in out:
             print('REPLAY VIOLATION:', o[1])
         return 1 if out else 0
-    ex = core.execute(Conduct, r['params'], r['choices'], want_labels=True)
+    cls = WriteFault if r['params'].pop('_write_fault', False) else Conduct
+    ex = core.execute(cls, r['params'], r['choices'], want_labels=True)
     for lab in ex.labels:
         print('  ', lab)
     print('observation:', ex.obs)
